@@ -332,6 +332,9 @@ def make_saliency(rng, lead, N, kind):
     if kind == 'integer':
         return rng.integers(1, 4, size=(*lead, N)).astype(np.float64)
     s = rng.uniform(0.05, 2.0, size=(*lead, N))
+    if kind == 'slice-scaled' and len(lead):
+        # strongly different saliency mass per leading index (what a tying over the leading axis has to pool correctly)
+        s = s * (10.0 ** rng.uniform(-1, 1, size=(*lead, 1)))
     if kind == 'with-zeros':
         s[rng.random(s.shape) < 0.15] = 0.0
     return s
